@@ -214,6 +214,9 @@ def stock_configs(draw, classes=("simple", "idsm", "sdsm_manual", "sdsm_lapack")
         if draw(st.integers(0, 3)) == 0:
             # re-parameterise and recompute on the same object (as in a scenario loop)
             cfg["reprm"] = draw(lifetime_descs(U, classes=(cfg["lt"]["cls"],), well_conditioned=True))["prms"]
+    cfg["mem"] = draw(st.sampled_from([None, None, None, "F", "T", "S"]))
+    if cfg["cls"] != "simple":
+        cfg["given_results"] = draw(st.sampled_from([None, None, None, "F", "T", "C"]))
     # flows in any unit: tiny and huge magnitudes are as legitimate as ordinary ones
     cfg["scale"] = draw(st.sampled_from([1.0, 1.0, 1.0, 1e-9, 1e-4, 1e6]))
     if draw(st.integers(0, 5)) == 0:
@@ -237,6 +240,7 @@ def driver_array(cfg, vals=None, cls=None):
     v = np.array(vals if vals is not None else driver_values(cfg), dtype=float).reshape(shape)
     if cfg.get("int_driver") and np.all(v == np.round(v)) and np.all(np.abs(v) < 2**40):
         v = v.astype(np.int64)
+    v = build.with_memory_layout(v, cfg.get("mem"))  # data that came in another axis order (table.T, Fortran files)
     return (cls or fd.StockArray)(dims=build.dimset(U, letters), values=v)
 
 
@@ -252,10 +256,16 @@ def build_stock(cfg, driver=None, lifetime=None):
         return fd.SimpleFlowDrivenStock(dims=dims, inflow=d, outflow=out, name="s")
     via_class = lifetime is None and cfg.get("lt_via") == "class"
     lm = lifetime if lifetime is not None else (getattr(fd, cfg["lt"]["cls"]) if via_class else build_lifetime(U, cfg["lt"]))
+    given = {}
+    if cfg.get("given_results"):
+        # the arrays the model will fill are handed in by the caller (as to_stock_type does), in the caller's memory layout
+        shape = tuple(len(x["items"]) for x in U["dims"])
+        mk0 = lambda: fd.StockArray(dims=dims, values=build.with_memory_layout(np.zeros(shape), cfg.get("given_results")))
+        given = {"outflow": mk0(), ("stock" if c == "idsm" else "inflow"): mk0()}
     if c == "idsm":
-        stock = fd.InflowDrivenDSM(dims=dims, inflow=d, lifetime_model=lm, name="s")
+        stock = fd.InflowDrivenDSM(dims=dims, inflow=d, lifetime_model=lm, name="s", **given)
     else:
-        stock = fd.StockDrivenDSM(dims=dims, stock=d, lifetime_model=lm, solver=c.split("_")[1], name="s")
+        stock = fd.StockDrivenDSM(dims=dims, stock=d, lifetime_model=lm, solver=c.split("_")[1], name="s", **given)
     if via_class:
         # the stock was given the model CLASS and created the instance itself: settings and parameters follow
         lt = cfg["lt"]
